@@ -60,6 +60,9 @@ enum ProvisionAction {
     GetProvisionFinished {
         response: oneshot::Sender<i128>,
     },
+    SetProvisionFinishedIfAllReady {
+        response: oneshot::Sender<bool>,
+    },
 }
 
 #[derive(Clone, Debug)]
@@ -128,6 +131,19 @@ impl ProvisionSharedState {
                         if response.send(provision_finished_time_tick).is_err() {
                             logger::write_warning(
                                 "Failed to send response to ProvisionAction::SetProvisionFinished"
+                                    .to_string(),
+                            );
+                        }
+                    }
+                    ProvisionAction::SetProvisionFinishedIfAllReady { response } => {
+                        // decided inside the actor: a reset that arrived after the caller saw ALL_READY wins
+                        let all_ready = provision_state.contains(ProvisionFlags::ALL_READY);
+                        if all_ready {
+                            provision_finished_time_tick = misc_helpers::get_date_time_unix_nano();
+                        }
+                        if response.send(all_ready).is_err() {
+                            logger::write_warning(
+                                "Failed to send response to ProvisionAction::SetProvisionFinishedIfAllReady"
                                     .to_string(),
                             );
                         }
@@ -273,6 +289,25 @@ impl ProvisionSharedState {
             })?;
         rx.await
             .map_err(|e| Error::RecvError("ProvisionAction::SetProvisionFinished".to_string(), e))
+    }
+
+    /// Mark the provision finished only if every module is still ready (evaluated inside the actor)
+    /// # Returns
+    ///   * `bool` - true if the finished time_tick was set
+    pub async fn set_provision_finished_if_all_ready(&self) -> Result<bool> {
+        let (tx, rx) = oneshot::channel();
+        self.0
+            .send(ProvisionAction::SetProvisionFinishedIfAllReady { response: tx })
+            .await
+            .map_err(|e| {
+                Error::SendError(
+                    "ProvisionAction::SetProvisionFinishedIfAllReady".to_string(),
+                    e.to_string(),
+                )
+            })?;
+        rx.await.map_err(|e| {
+            Error::RecvError("ProvisionAction::SetProvisionFinishedIfAllReady".to_string(), e)
+        })
     }
 
     /// Get the provision finished state
